@@ -58,6 +58,8 @@ def make_spec(kind, spec_text, vars_, pastify=False, unit=None, period=None, con
     s.parse()
     if pastify:
         s.pastify()
+        if pastify == 'twice':
+            s.pastify()           # a second pastify() finds no future operator any more: it must not change anything
     return s
 
 
